@@ -287,6 +287,114 @@ pub fn pipeline(args: &[String]) -> String {
     class.to_string()
 }
 
+// sinks <text>: pretty-print and compact-print the document into sinks that misbehave the way real sinks do (property C03:
+// printing terminates and returns a value or an error): a sink of fixed capacity that answers Ok(0) once it is full (as
+// `&mut [u8]` does), one that answers an error once it is full, and one that takes a single byte per call.
+//   `ok caps=<n> len=<bytes>` | `hang <sink> cap=<c>` (data offered again and again to a sink that refuses it) |
+//   `wrong <sink> cap=<c>` (success reported although not everything was written / a short writer changes the output) | err:<class>
+pub fn sinks(args: &[String]) -> String {
+    use std::io;
+    use xml_dom::PrettyPrint;
+    struct Fixed {
+        room: usize,
+        refused: usize,
+        fail: bool,
+    }
+    impl io::Write for Fixed {
+        fn write(&mut self, buf: &[u8]) -> io::Result<usize> {
+            let n = buf.len().min(self.room);
+            self.room -= n;
+            if n == 0 && !buf.is_empty() {
+                self.refused += 1;
+                if self.refused > 20_000 {
+                    panic!("sink-hang");
+                }
+                if self.fail {
+                    return Err(io::Error::new(io::ErrorKind::Other, "full"));
+                }
+            }
+            Ok(n)
+        }
+        fn flush(&mut self) -> io::Result<()> {
+            Ok(())
+        }
+    }
+    struct OneByte(Vec<u8>);
+    impl io::Write for OneByte {
+        fn write(&mut self, buf: &[u8]) -> io::Result<usize> {
+            match buf.first() {
+                Some(b) => {
+                    self.0.push(*b);
+                    Ok(1)
+                }
+                None => Ok(0),
+            }
+        }
+        fn flush(&mut self) -> io::Result<()> {
+            Ok(())
+        }
+    }
+    struct FmtFixed {
+        room: usize,
+        refused: usize,
+    }
+    impl std::fmt::Write for FmtFixed {
+        fn write_str(&mut self, s: &str) -> std::fmt::Result {
+            if s.len() > self.room {
+                self.refused += 1;
+                if self.refused > 20_000 {
+                    panic!("sink-hang");
+                }
+                return Err(std::fmt::Error);
+            }
+            self.room -= s.len();
+            Ok(())
+        }
+    }
+    let text = args.first().cloned().unwrap_or_default();
+    let dom = match XmlDocument::from_raw(&text) {
+        Ok((_, d)) => d,
+        Err(_) => return "err:doc".to_string(),
+    };
+    let mut whole: Vec<u8> = vec![];
+    if dom.pretty(&mut whole).is_err() {
+        return "wrong vec cap=inf".to_string();
+    }
+    let mut one = OneByte(vec![]);
+    if dom.pretty(&mut one).is_err() || one.0 != whole {
+        return "wrong onebyte cap=inf".to_string();
+    }
+    let compact = format!("{}", dom);
+    let step = if whole.len() <= 600 { 1 } else { whole.len() / 300 };
+    let mut caps = 0;
+    let mut c = 0;
+    while c <= whole.len() {
+        for fail in [false, true] {
+            let mut sink = Fixed { room: c, refused: 0, fail };
+            let r = std::panic::catch_unwind(std::panic::AssertUnwindSafe(|| dom.pretty(&mut sink)));
+            match r {
+                Err(_) => return format!("hang {} cap={}", if fail { "failing" } else { "full" }, c),
+                Ok(Ok(())) if c < whole.len() => return format!("wrong {} cap={}", if fail { "failing" } else { "full" }, c),
+                Ok(Err(_)) if c >= whole.len() => return format!("wrong {} cap={}", if fail { "failing" } else { "full" }, c),
+                _ => {}
+            }
+        }
+        if c <= compact.len() {
+            use std::fmt::Write;
+            let mut sink = FmtFixed { room: c, refused: 0 };
+            let r = std::panic::catch_unwind(std::panic::AssertUnwindSafe(|| write!(sink, "{}", dom)));
+            match r {
+                Err(_) => return format!("hang fmt cap={}", c),
+                Ok(Ok(())) if c < compact.len() => return format!("wrong fmt cap={}", c),
+                _ => {}
+            }
+        }
+        caps += 1;
+        c += step;
+    }
+    format!("ok caps={} len={}", caps, whole.len())
+}
+
 fn count_nodes(n: &xml_dom::XmlNode, depth: usize) -> usize {
     use xml_dom::{Node, NodeList};
     let mut total = 1;
